@@ -18,14 +18,13 @@ macro "step_cases " hs:ident : tactic => `(tactic| (
   all_goals (first | (cases $hs:ident; done) | skip)
   all_goals (simp only [Option.some.injEq] at $hs:ident; subst $hs:ident)))
 
-/-- finishing tactic: evaluate; if needed, look at the parking point of one more thread -/
+/-- finishing tactic -/
 macro "close_inv " s:ident : tactic => `(tactic| (
   first
+  | grind
   | (simp_all; done)
-  | (simp_all; omega)
   | (cases hpb : State.pb $s <;> simp_all <;> omega)
   | (cases hpa : State.pa $s <;> simp_all <;> omega)
-  | (cases hps : State.ps $s <;> simp_all <;> omega)
   | (simp_all; trace_state; fail "close_inv")))
 
 /-- structure of the harness threads -/
